@@ -136,7 +136,7 @@ func c23Replay(c c23Case) (*uix.Session, *eng.Fail) {
 func init() {
 	checks["C23"] = eng.Check{
 		Hist: true,
-		Rule: "explicit-state BFS to closure over 'move N M' for EVERY pair of line numbers 0..Len+1 on the 3-block program with blocks of 3, 2 and 4 instructions on the loop-with-gap program (blocks of 1, 3, 1) and on a program with blocks of 2, 1, 2 (thorough also: a 4-block program with blocks of 3, 2, 2, 4 and a 5-block program in two segments) (state = block order + per-block instruction order; successor = fresh real UI session + replay + one command line through processCommand). After every command the listing (marks ignored) must equal a fresh lines.NewView of the same code and the structural model (one 'Block <position>: 0x<start>' header per block in current order, instruction lines with text and bytes in current order, single blank separators); a command that leaves the code unchanged leaves the listing unchanged. Plus one long walk per program on a single session (every move pair twice, ~600 commands) with the same oracle after every command. Non-trivial = accepted move.",
+		Rule: "explicit-state BFS to closure over 'move N M' for EVERY pair of line numbers 0..Len+1 on the 3-block program with blocks of 3, 2 and 4 instructions on the loop-with-gap program (blocks of 1, 3, 1) and on a program with blocks of 2, 1, 2 (thorough also: a 4-block program with blocks of 3, 2, 2, 4 and a 5-block program in two segments) (state = block order + per-block instruction order; successor = fresh real UI session + replay + one command line through processCommand). After every command the listing (marks ignored) must equal a fresh lines.NewView of the same code and the structural model (one 'Block <position>: 0x<start>' header per block in current order, instruction lines with text and bytes in current order, single blank separators); a command that leaves the code unchanged leaves the listing unchanged. Plus one long walk per program on a single session (every move pair twice, ~600 commands) with the same oracle after every command. Non-trivial = accepted move. A command that leaves the code unchanged is entered a second time.",
 		Run: func(r *eng.Run) {
 			item := 0
 			for _, pn := range deepNames(r, []string{"three-blocks", "loop-with-gap", "sym-blocks", "synthetic-long"}) {
@@ -154,6 +154,10 @@ func init() {
 				for len(queue) > 0 {
 					h := queue[0]
 					queue = queue[1:]
+					parentKey := ""
+					if ps, _ := c23Replay(c23Case{Prog: pn, History: h}); ps != nil {
+						parentKey = ps.CodeKey()
+					}
 					for a := 0; a <= n+1; a++ {
 						for b := 0; b <= n+1; b++ {
 							item++
@@ -176,6 +180,17 @@ func init() {
 							}
 							if s == nil {
 								continue
+							}
+							if s.CodeKey() == parentKey && mine {
+								// the command left the code unchanged (rejected, or a move onto itself): the same
+								// command once more exposes whatever it left behind in state the key does not show
+								h3 := append(append([]uiLine{}, hh...), hh[len(hh)-1])
+								if _, f3 := c23Replay(c23Case{Prog: pn, History: h3}); f3 != nil {
+									r.Report(f3)
+									r.Outcome(f3.Sig)
+								}
+								r.Eval(1)
+								r.Trans(1)
 							}
 							if k := s.CodeKey(); !seen[k] {
 								seen[k] = true
